@@ -326,6 +326,7 @@ class C17(Check):
     level = "exploration"
     case_timeout_s = 400  # whole runs with plots, on a loaded machine
     quick_budget_s = 50.0
+    quick_min_runs = 250
     thorough_budget_s = 840.0
     batch = 6
     rule = (
